@@ -360,7 +360,20 @@ impl C08Scen {
             let Some((la_hi, la_idx)) = last_maybe else { continue };
             let la = last_sure.unwrap_or(0);
             // first ack-eliciting packet sent after it (ledger order, not merely time order)
-            let first_ae = tap.pkts.iter().skip(la_idx + 1).filter(|p| p.enc && p.inc == c.inc && p.t <= t_to).find(|p| wire::frames(&p.payload).0.iter().any(|f| f.ack_eliciting())).map(|p| p.t);
+            // (quinn decides whether a packet is ack-eliciting before its frames are written: a
+            // packet that starts out as a bare ACK and picks up a STREAMS_BLOCKED or similar notice
+            // on the way is tracked as non-eliciting and does not restart the timer — the restart
+            // then happens with the next packet that is ack-eliciting from its first frame on)
+            let first_ae = tap
+                .pkts
+                .iter()
+                .skip(la_idx + 1)
+                .filter(|p| p.enc && p.inc == c.inc && p.t <= t_to)
+                .find(|p| {
+                    let fr = wire::frames(&p.payload).0;
+                    fr.iter().any(|f| f.ack_eliciting()) && !matches!(fr.iter().find(|f| !matches!(f, Frame::Padding(_))), Some(Frame::Ack { .. }))
+                })
+                .map(|p| p.t);
             let restart = first_ae.unwrap_or(la_hi).max(la_hi);
             let idle = idle_hi;
             if t_to + MS < la + idle_lo {
